@@ -10,7 +10,7 @@ class P(StreamProperty):
     rule = ('(i) generator correspondence: encoder sessions on identity payloads print the repair rows of the systematic generator, '
             'compared entry by entry with the Lagrange-formula model (quick: every k for m=4 and a seeded sample of k for both m=8 codecs; '
             'thorough: every k); (ii) decoder sessions: every k-subset and every (k-1)-subset for n<=nmax, plus sampled (k,n,subset,order) up to '
-            'the field limit, through both submission APIs; oracle: exactly-k distinct symbols => complete with the original symbols; fewer => not complete and finish=FAILURE; '
+            'the field limit, through both submission APIs, a quarter of the GF(2^m) sessions right after a session of the other field size with the same (k, r); oracle: exactly-k distinct symbols => complete with the original symbols; fewer => not complete and finish=FAILURE; '
             'non-trivial = distinct (codec, k, n, subset, order, api)')
 
     def project(self, line, out):
@@ -78,7 +78,9 @@ class P(StreamProperty):
                         for sub in itertools.combinations(range(n), size):
                             order = list(sub)
                             if i % 3 == 1: rng.shuffle(order)
-                            cases.append(gens.decoder_case('sub%d' % i, cfg, order, api='stream' if i % 2 else 'table', finish=True))
+                            c = gens.decoder_case('sub%d' % i, cfg, order, api='stream' if i % 2 else 'table', finish=True)
+                            if i % 4 == 3: gens.with_prefix(c, gens.field_twin_prefix(cfg))   # same (k, r) in the other field just before
+                            cases.append(c)
                             i += 1
         ns = 150 if tier == 'quick' else 3000
         for j in range(ns):
